@@ -2,8 +2,8 @@
 // shim/normalize.rs -- TRUSTED.  What the extracted basic-normalization passes (intermediate_representation/project.rs,
 // project/block_duplication_normalization.rs, sub.rs, blk.rs; unit `normalize`, property C09) may assume about std, about
 // derive-generated code, about `utils::log::LogMessage` and about the NAMES (`Tid`s) that the passes generate by string
-// concatenation.  `std::collections::{BTreeMap, HashMap, HashSet}` are NOT shimmed: vstd's specifications are used (incl.
-// `BTreeMap::get_mut`, `Vec::iter_mut`), under the hypotheses cfg_key_hyp (spec/cfgbuild.rs).
+// concatenation.  `std::collections::{BTreeMap, HashMap, HashSet}` and `Vec` are NOT shimmed: vstd's specifications are used
+// (incl. `BTreeMap::get_mut`, `Vec::iter_mut`, `HashMap::remove`, `Vec::append`), under the hypotheses cfg_key_hyp (spec/cfgbuild.rs).
 // Every item is an assumption and is listed in contracts/normalize.vc.
 // ---------------------------------------------------------------------------
 
@@ -20,11 +20,14 @@ pub struct DatatypeProperties { _p: () }
 pub struct RuntimeMemoryImage { _p: () }
 
 // ---- NAMES ----------------------------------------------------------------------------------------------------------------
-// `Tid { id: String, address: String }`.  The passes build new tids with `format!` / `String + &str`; Verus has no theory
-// of string concatenation that would decide when two such names collide, so the names are UNINTERPRETED functions of their
-// ingredients.  The contracts of the `Tid` helpers below (@nobody in contracts/normalize.vc) say which function a helper
-// computes; the two axioms are facts of string concatenation; everything else that the proofs need about names
-// ("a generated name differs from ...") is a HYPOTHESIS on the input program, stated in spec/normalize.rs (nz_names_*).
+// `Tid { id: String, address: String }`.  The passes build new tids with `format!` / `String + &str` and test them with
+// `starts_with` / `ends_with`; Verus has no theory of string concatenation that would decide when two such names collide, so
+// the names are UNINTERPRETED functions of their ingredients.  The contracts of the `Tid` helpers (@nobody in
+// contracts/normalize.vc) say which function a helper computes; the two axioms below are facts of string concatenation;
+// everything else that the proofs need about names ("no term of the input carries an artificial-sink name") is a HYPOTHESIS on
+// the input program (spec/normalize.rs: nz_no_sink_names, nz_namespace).  NOTHING is assumed about `nz_with` / `nz_sfx` (in
+// particular NOT that different (tid, suffix) pairs give different tids: with string concatenation that is false, e.g.
+// "a_b" + "_c" == "a" + "_b_c"); the clauses that would need it are listed as not decided.
 
 /// `Tid::artificial_sink_sub()`: id "Artificial Sink Sub", address "UNKNOWN"
 pub uninterp spec fn nz_sink_sub() -> Tid;
@@ -41,12 +44,12 @@ pub uninterp spec fn nz_sfx(t: Tid) -> Seq<char>;
 pub broadcast axiom fn axiom_nz_sink_blk_is(s: Seq<char>)
     ensures #[trigger] nz_is_sink_blk(nz_sink_blk(s), s);
 
-/// ("Artificial Sink Block" + "") + s == "Artificial Sink Block" + s, same address "UNKNOWN" (and a `Tid` is determined by
-/// the characters of its two strings).
-pub broadcast axiom fn axiom_nz_sink_blk_with(s: Seq<char>)
-    ensures #[trigger] nz_with(nz_sink_blk(Seq::<char>::empty()), s) == nz_sink_blk(s);
+/// "Artificial Sink Sub" and "Artificial Sink Block" are different names.
+pub axiom fn axiom_nz_sink_names_differ()
+    ensures nz_sink_sub() != nz_sink_blk(Seq::<char>::empty());
 
-/// R9 target for `format!("_{}", TID)` (block_duplication_normalization.rs): the text is the function nz_sfx of the tid.
+/// R9 target for `format!("_{}", TID)` (block_duplication_normalization.rs): the text is the function nz_sfx of the tid
+/// (the same text `Term<Sub>::id_suffix` produces: both are `format!("_{}", tid)`).
 #[verifier::external_body]
 pub fn verif_nz_sub_suffix(t: &Tid) -> (r: String)
     ensures r@ == nz_sfx(*t)
@@ -62,28 +65,18 @@ impl<T> Clone for Term<T> {
     { unimplemented!() }
 }
 
-// ---- utils::log::LogMessage (opaque type of shim/cfgbuild.rs): constructors without specification ------------------------------
+// ---- utils::log::LogMessage (opaque type of shim/cfgbuild.rs): constructors WITHOUT specification ------------------------------
+// C09 does not speak about log messages: whatever these return, no contract of the unit mentions it.
 impl LogMessage {
-    /// `LogMessage::new_error(text)`: some log message (C09 does not speak about log messages)
+    /// `LogMessage::new_error(text)`
     #[verifier::external_body]
     pub fn new_error<T>(text: T) -> (r: LogMessage)
-    { unimplemented!() }
-    /// `LogMessage::new_info(text)`
-    #[verifier::external_body]
-    pub fn new_info<T>(text: T) -> (r: LogMessage)
     { unimplemented!() }
     /// `msg.location(tid)`
     #[verifier::external_body]
     pub fn location(self, location: Tid) -> (r: LogMessage)
     { unimplemented!() }
 }
-
-// ---- panics that the unit PROVES unreachable ------------------------------------------------------------------------------------
-/// R9 target for `panic!("Duplicate of TID {} encountered.", sub.tid)`: precondition `false`, i.e. a PROOF OBLIGATION.
-#[verifier::external_body]
-pub fn nz_panic<T>() -> (r: T)
-    requires false
-{ unimplemented!() }
 
 /// R9 target for `LogMessage::new_error(&format!("Removed duplicate of TID {}. ..", TID))`: some log message.
 #[verifier::external_body]
@@ -93,4 +86,12 @@ pub fn verif_nz_log_dup(tid: &Tid) -> (r: LogMessage)
 /// R9 target for `LogMessage::new_info(format!(.., TIDS..))` in the non-returning-calls pass: some log message.
 #[verifier::external_body]
 pub fn verif_nz_log_info() -> (r: LogMessage)
+{ unimplemented!() }
+
+// ---- panics that the unit PROVES unreachable ------------------------------------------------------------------------------------
+/// R9 target for `panic!("Duplicate of TID {} encountered.", sub.tid)`: precondition `false`, i.e. a PROOF OBLIGATION
+/// (unlike rule R5, which reads a panic as divergence and claims nothing).
+#[verifier::external_body]
+pub fn nz_panic<T>() -> (r: T)
+    requires false
 { unimplemented!() }
